@@ -464,6 +464,12 @@ int harness_main(int argc, char **argv, const Harness &h) {
     snprintf(extra, sizeof extra, ",\"exit\":%d,\"signal\":%d,\"wall_ms\":%.2f,\"timeout\":%s", code, sig, wall * 1000, timed_out ? "true" : "false");
     std::string errtxt;
     if (code != 0 || sig != 0 || timed_out || !have) errtxt = read_file_head(errpath, 12000);
+    if (const char *vgdir = getenv("VERIF_VG_LOG_DIR")) {
+      // under valgrind the tool's own messages go to a per-process log file, not to the child's stderr
+      char vp[512]; snprintf(vp, sizeof vp, "%s/vg-%d.log", vgdir, (int)pid);
+      if (code != 0 || sig != 0) errtxt += read_file_head(vp, 12000);
+      unlink(vp);
+    }
     else {
       struct stat st;
       if (stat(errpath.c_str(), &st) == 0 && st.st_size > 0 && getenv("VERIF_KEEP_STDERR")) errtxt = read_file_head(errpath, 12000);
